@@ -1401,3 +1401,70 @@ Proof. vm_compute. repeat split; reflexivity. Qed.
 Example c19_wt_examples :
   c19_wt c19_ex_heap 4%nat = true /\ c19_wt c19_ex_lon_heap 4%nat = true /\ c19_wt c19_ex_ugrid_heap 4%nat = true.
 Proof. vm_compute. auto. Qed.
+
+(* ------------------------------------------------------------------------- *)
+(* the helper containers of a copied Grid                                      *)
+
+Local Open Scope nat_scope.
+
+Lemma c19_alloc_many_spec : forall cs h h' l,
+  c19_alloc_many h cs = (h', l) ->
+  c19_ext h h' /\ length l = length cs /\ forall i, In i l -> length h <= i < length h'.
+Proof.
+  induction cs as [|c cs IH]; intros h h' l; cbn [c19_alloc_many].
+  - intros [= <- <-]. split; [apply c19_ext_refl|]. split; auto. intros ? [].
+  - unfold c19_alloc. destruct (c19_alloc_many (h ++ [c]) cs) as [h2 l2] eqn:E. intros [= <- <-].
+    destruct (IH _ _ _ E) as (X & L & R).
+    assert (L1 : length (h ++ [c]) = S (length h)) by (rewrite app_length; simpl; lia).
+    split; [eapply c19_ext_trans; [apply (c19_ext_alloc h c)|exact X]|]. split; [simpl; lia|].
+    intros i [<-|Hi]; [destruct X; lia|]. apply R in Hi. lia.
+Qed.
+
+(* C19_copy for the containers: every container of the copy is a new object, so whatever is stored
+   into a container of one grid (a cached frame, collection, tree) leaves every container of the
+   other grid as it was *)
+Lemma c19_grid_copy_containers h g h' g' :
+  c19_grid_copy h g = (h', g') ->
+  (forall i, In i (g_aux g') -> length h <= i) /\
+  (forall i j c, In i (g_aux g') -> In j (g_aux g) -> j < length h ->
+     c19_get (c19_upd h' i c) j = c19_get h' j) /\
+  (forall i j c, In i (g_aux g') -> In j (g_aux g) -> j < length h -> i < length h' ->
+     c19_get (c19_upd h' j c) i = c19_get h' i).
+Proof.
+  unfold c19_grid_copy. destruct (c19_copy h (g_ds g)) as [h1 d1] eqn:E1.
+  destruct (c19_alloc_many h1 (map (fun _ => C19Dict []) (g_aux g))) as [h2 aux] eqn:E2.
+  intros [= <- <-]. cbn [g_aux].
+  destruct (c19_alloc_many_spec _ _ _ _ E2) as (X & L & R).
+  assert (M : length h <= length h1).
+  { unfold c19_copy, c19_deepcopy in E1.
+    destruct (c19_get h (g_ds g)) as [[| | |vars a]|].
+    all: try (unfold c19_alloc in E1; injection E1 as <- <-; rewrite app_length; simpl; lia).
+    destruct (c19_alloc h match c19_get h a with Some c => c | None => C19Dict [] end) as [hA na] eqn:EA.
+    destruct (c19_deepcopy_vars hA vars) as [hB vars'] eqn:EB.
+    unfold c19_alloc in E1, EA. injection EA as <- <-. injection E1 as <- <-.
+    rewrite app_length. simpl.
+    assert (G : forall vs hh hh' vv, c19_deepcopy_vars hh vs = (hh', vv) -> length hh <= length hh').
+    { induction vs as [|[n v] vs IHv]; intros hh hh' vv; cbn [c19_deepcopy_vars].
+      - intros [= <- <-]. lia.
+      - destruct (c19_deepcopy_var hh v) as [hx nv] eqn:Ev. destruct (c19_deepcopy_vars hx vs) as [hy t'] eqn:Ew.
+        intros [= <- <-]. apply IHv in Ew.
+        assert (length hh <= length hx).
+        { unfold c19_deepcopy_var in Ev. destruct (c19_get hh v) as [[| |b aa|]|]; unfold c19_alloc in Ev;
+            injection Ev as <- <-; rewrite ?app_length; simpl; lia. }
+        lia. }
+    apply G in EB. rewrite app_length in EB. simpl in EB. lia. }
+  repeat split.
+  - intros i Hi. apply R in Hi. lia.
+  - intros i j c Hi Hj Hjl. apply c19_get_upd_other. apply R in Hi. lia.
+  - intros i j c Hi Hj Hjl Hil. apply c19_get_upd_other. apply R in Hi. lia.
+Qed.
+
+(* the copy.copy variant shares them: storing into a container of the copy is storing into the
+   original's *)
+Lemma c19_grid_copy_shallow_refuted : exists h g c,
+  let '(h', g') := c19_grid_copy_shallow h g in
+  exists i, In i (g_aux g') /\ In i (g_aux g) /\ c19_get (c19_upd h' i c) i <> c19_get h' i.
+Proof.
+  exists (c19_ex_heap ++ [C19Dict []]), {| g_ds := 4; g_aux := [5] |}, (C19Dict [(1%Z, 1%Z)]).
+  vm_compute. exists 5. repeat split; auto. discriminate.
+Qed.
